@@ -56,10 +56,12 @@ const (
 	COneBit
 	CSmall // every 16-byte block is a small integer (1..255)
 	COne   // every 16-byte block is the integer 1: the batch sum is the plain sum of the scalars
+	CTwo   // every 16-byte block is the integer 2: all scalars of the equation may share the factor 2
+	CPow2  // every 16-byte block is the same power of two
 	nContent
 )
 
-var contentNames = []string{"uniform", "zero", "ones", "repeat16", "sparse", "ramp", "onebit", "small", "one"}
+var contentNames = []string{"uniform", "zero", "ones", "repeat16", "sparse", "ramp", "onebit", "small", "one", "two", "pow2"}
 
 // ReadFault describes one Read call of the device (by index; stalls do not
 // advance the index).
@@ -152,6 +154,17 @@ func (d *Device) contentByte(k int) byte {
 	case COne:
 		if k%16 == 0 {
 			return 1
+		}
+		return 0
+	case CTwo:
+		if k%16 == 0 {
+			return 2
+		}
+		return 0
+	case CPow2:
+		bit := int(d.plan.CSeed % 120)
+		if k%16 == bit/8 {
+			return 1 << uint(bit%8)
 		}
 		return 0
 	case CSmall:
